@@ -209,12 +209,27 @@ func c02LevelReceiver(w *World, r ssa.Value, depth int, bad *[]string) {
 			}
 		}
 		if len(vals) > 0 {
-			for _, sv := range vals {
+			var copyOf func(sv ssa.Value, d int)
+			copyOf = func(sv ssa.Value, d int) {
 				if ld, isLd := sv.(*ssa.UnOp); isLd && ld.Op == token.MUL {
-					c02LevelReceiver(w, ld.X, depth+1, bad)
-				} else {
-					*bad = append(*bad, "GetVerificationLevel of a copy of "+trunc(desc(sv), 80))
+					c02LevelReceiver(w, ld.X, d+1, bad)
+					return
 				}
+				// the struct handed over by value: a parameter bound, at every call site, to a copy of the statement's field
+				if pa, isP := sv.(*ssa.Parameter); isP && d <= 4 {
+					sites, closed := c03CallSites(w, pa.Parent())
+					idx := c03ParamIndex(pa)
+					if closed && len(sites) > 0 && idx >= 0 {
+						for _, s := range sites {
+							copyOf(s.Common().Args[idx], d+1)
+						}
+						return
+					}
+				}
+				*bad = append(*bad, "GetVerificationLevel of a copy of "+trunc(desc(sv), 80))
+			}
+			for _, sv := range vals {
+				copyOf(sv, depth)
 			}
 			return
 		}
